@@ -315,7 +315,7 @@ package thrift
 //@   timeout 30        // the size invariants are the hardest queries of the suite (bit-vector sums of UF results)
 //@   ensures mono: old(p.Read) <= p.Read
 //@   ensures exact: r0 == nil ==> p.Read == old(p.Read) + tsz(p.Buf, old(p.Read), fieldType)
-//@   ensures progress: r0 == nil ==> p.Read >= old(p.Read) + tmin(fieldType)
+//@   ensures progress: r0 == nil ==> p.Read >= old(p.Read) + tmin(fieldType) && tmin(fieldType) >= 1
 //@   unfold tsz(p.Buf, p.Read, fieldType)
 //@   unfold psz(p.Buf, p.Read+6, Type(p.Buf[p.Read]), Type(p.Buf[p.Read+1]), int(int32(be32(p.Buf, p.Read+2))))
 //@   unfold esz(p.Buf, p.Read+5, Type(p.Buf[p.Read]), int(int32(be32(p.Buf, p.Read+1))))
@@ -346,7 +346,7 @@ package thrift
 //@   props C19 C06 C01
 //@   ensures mono: old(p.Read) <= p.Read
 //@   ensures exact: err == nil ==> p.Read == old(p.Read) + tsz(p.Buf, old(p.Read), fieldType)
-//@   ensures progress: err == nil ==> p.Read >= old(p.Read) + tmin(fieldType)
+//@   ensures progress: err == nil ==> p.Read >= old(p.Read) + tmin(fieldType) && tmin(fieldType) >= 1
 //@   modifies p.Read
 
 // ---- message envelope ----------------------------------------------------------------------------------
